@@ -52,7 +52,11 @@ value = st.one_of(vals.values(1), vals.values(2), tuple_family, tuple_family, re
                   st.sampled_from([["inst", "D1"], ["inst", "D2"], ["inst", "DD"], ["inst", "Base"], ["inst", "Mixed"]]))
 trace_spec = st.tuples(st.sampled_from(sorted(FUNCS)), st.lists(value, min_size=2, max_size=2)).map(list)
 # focused sets: one function, every trace drawn from one family (many tuple shapes / many records / many classes at ONE position)
-focused_set = st.tuples(st.sampled_from(sorted(FUNCS)), st.sampled_from([tuple_family, tuple_family1, tuple_family1, record, siblings, st.one_of(tuple_family, record),
+# dicts whose key types stand in a subclass relation (bool / int), and a record that is sometimes None
+subkey_dicts = st.sampled_from([["dict", [[["lit", True], ["lit", "s"]]]], ["dict", [[["lit", 1], ["lit", "s"]]]], ["dict", [[["lit", False], ["lit", "t"]], [["lit", True], ["lit", "s"]]]],
+                                ["dict", [[["lit", 2], ["lit", "u"]]]], ["dict", [[["lit", 1], ["lit", 1.5]]]]])
+record_or_none = st.one_of(record, record, st.just(["lit", None]))
+focused_set = st.tuples(st.sampled_from(sorted(FUNCS)), st.sampled_from([tuple_family, tuple_family1, tuple_family1, record, siblings, st.one_of(tuple_family, record), subkey_dicts, record_or_none,
                         st.sampled_from([["inst", c] for c in ["D1", "D2", "DD", "Base", "Mixed", "Other"]] + [["lit", None], ["lit", 1]])])).flatmap(
     lambda p: st.lists(st.lists(p[1], min_size=2, max_size=2), min_size=5, max_size=14).map(lambda vs: [[p[0], v] for v in vs]))
 # twins: traces of one function that differ ONLY in which parameter had which type (pair, gen, second) or only in what was
@@ -459,9 +463,9 @@ def shard(ctx):
 
         @hypothesis.seed(ctx.shard_seed(14))
         @core.hyp_settings(3 if q else 8, shrink=False)
-        @given(st.one_of(mi_lists, mi_lists, mi_family, twin_set))
-        def collect_lib(tspecs):
-            libsets.append((tspecs, 0, "default"))
+        @given(st.one_of(mi_lists, mi_lists, mi_family, twin_set, focused_set), st.sampled_from([0, 3]))
+        def collect_lib(tspecs, k):
+            libsets.append((tspecs, k, "default"))
 
         libsets = []
         collect_lib()
